@@ -20,6 +20,11 @@ def isinstance_classes(ix: Index, f: FuncInfo, subject: typing.Optional[str] = N
       elts = spec.elts if isinstance(spec, (ast.Tuple, ast.List)) else [spec]
       for e in elts:
         r = ix.resolve(f.module, e, cls=f.cls, func=f)
+        if r is None and isinstance(e, ast.Name):
+          # table-driven dispatch: `isinstance(x, k) for k, v in TABLE` with TABLE a constant tuple of (class, ...) rows
+          for c in _table_column(ix, f, n, e.id):
+            out.setdefault(c.qualname, []).append(n)
+          continue
         if isinstance(r, ClassInfo):
           out.setdefault(r.qualname, []).append(n)
         elif isinstance(r, tuple) and r[0] == "assign":
@@ -31,6 +36,41 @@ def isinstance_classes(ix: Index, f: FuncInfo, subject: typing.Optional[str] = N
               if isinstance(r2, ClassInfo):
                 out.setdefault(r2.qualname, []).append(n)
   return out
+
+
+def _table_column(ix: Index, f: FuncInfo, node, var: str) -> typing.List[ClassInfo]:
+  """Classes that loop / comprehension variable `var` ranges over when it is bound by iterating a
+  module- or class-level constant tuple / list (of classes, or of rows whose column holds classes)."""
+  from ..core import ancestors
+  for a in ancestors(node):
+    gens = []
+    if isinstance(a, (ast.GeneratorExp, ast.ListComp, ast.SetComp, ast.DictComp)):
+      gens = [(g.target, g.iter) for g in a.generators]
+    elif isinstance(a, ast.For):
+      gens = [(a.target, a.iter)]
+    for tgt, it in gens:
+      col = None
+      if isinstance(tgt, ast.Name) and tgt.id == var:
+        col = -1
+      elif isinstance(tgt, (ast.Tuple, ast.List)):
+        for i, t in enumerate(tgt.elts):
+          if isinstance(t, ast.Name) and t.id == var:
+            col = i
+      if col is None:
+        continue
+      r = ix.resolve(f.module, it, cls=f.cls, func=f) if isinstance(it, (ast.Name, ast.Attribute)) else None
+      table = r[2] if isinstance(r, tuple) and r[0] == "assign" else (it if isinstance(it, (ast.Tuple, ast.List)) else None)
+      mod = r[1] if isinstance(r, tuple) and r[0] == "assign" else f.module
+      if not isinstance(table, (ast.Tuple, ast.List)):
+        return []
+      out = []
+      for row in table.elts:
+        cell = row if col == -1 else (row.elts[col] if isinstance(row, (ast.Tuple, ast.List)) and col < len(row.elts) else None)
+        c = ix.resolve(mod, cell) if cell is not None else None
+        if isinstance(c, ClassInfo):
+          out.append(c)
+      return out
+  return []
 
 
 def handled(ix: Index, cls: ClassInfo, tested: typing.Iterable[str]) -> typing.Optional[str]:
